@@ -36,7 +36,8 @@ def oracle_lr(run):
             throwing functor) on a copy overlaps a handle pointing to that copy; write windows of different
             threads do not overlap at all; every write window lies inside its thread's write-mutex section;
         (f) at the end both copies equal E.
-    C14 no mutex / yield / condition event and at most 3 (1) primitive operations inside lock_shared (handle destruction).
+    C14 no mutex / yield / condition event and at most 12 (6) primitive operations inside lock_shared (handle destruction):
+        a constant bound (the code needs 3 and 1) that a loop waiting for a writer exceeds under some schedule.
     C20 every modify — also one that throws — contains exactly one mlk and one mul of the write mutex, nothing is held
         at ret/exc; after a throw the values seen later obey (b)-(f) (first application: no effect, second: full effect)."""
     eff = _effective(run["script"])
@@ -112,7 +113,9 @@ def oracle_lr(run):
                     if w == tid:
                         return "thread %d left modify with copy %s still in a write window / torn" % (tid, c)
             elif t[1] in ("ls", "rel"):
-                lim = 3 if t[1] == "ls" else 1
+                # wait-freedom as a bound that no spin can meet but a rewrite with a redundant load or a retry-free CAS can:
+                # the code needs 3 (1); anything that WAITS for a writer exceeds any constant under some schedule
+                lim = 12 if t[1] == "ls" else 6
                 if prims.get(tid, 0) > lim:
                     return "%d primitive operations inside %s" % (prims[tid], "lock_shared" if t[1] == "ls" else "handle destruction")
             in_call[tid] = None
